@@ -218,6 +218,20 @@ Definition append_cells (w : world) (v : nat) (l : list cell) : res world :=
   do w2 <- v_write w1 v n1 l;
   v_setlen_term w2 v newLen.
 
+(* append(const char* str, usize len) with str = data->str + off inside the own text (off <= len),
+   repaired: the offset is taken before the detach and the source is read relative to the buffer
+   the String has after it (the old buffer may be gone) *)
+Definition append_own (w : world) (v off len : nat) : res world :=
+  do n <- var_len w v;
+  if n <? off then Err BadArg else
+  let newLen := n + len in
+  do w1 <- detach w v n newLen;
+  do h1 <- get_var w1 v;
+  do src <- d_read w1 h1 off len;
+  do n1 <- var_len w1 v;
+  do w2 <- v_write w1 v n1 src;
+  v_setlen_term w2 v newLen.
+
 (* append(const String& str): str.data is read again after the detach *)
 Definition append_s (w : world) (v u : nat) : res world :=
   do n <- var_len w v;
@@ -312,10 +326,12 @@ Fixpoint m_replace_loop (fuel : nat) (needle repl p : list Z) (acc : list Z) (ca
     end
   end.
 
-(* trim: the two scanning loops; strchr(chars, c) also finds c = 0 *)
+(* trim, repaired: the two scanning loops; a byte belongs to the set when it is not 0 and
+   strchr(chars, c) finds it (strchr alone also "finds" c = 0, the terminator of chars) *)
+Definition in_set (chars : list Z) (x : Z) : bool := negb (x =? 0)%Z && memb x chars.
 Fixpoint m_skip_front (chars l : list Z) : nat :=
   match l with
-  | x :: t => if (x =? 0)%Z || memb x chars then S (m_skip_front chars t) else O
+  | x :: t => if in_set chars x then S (m_skip_front chars t) else O
   | [] => O
   end.
 (* p = number of leading bytes in the set; the backward loop runs over (p, len) and never tests
@@ -345,20 +361,13 @@ Fixpoint m_split_loop (fuel : nat) (seps p : list Z) (skipEmpty : bool) : list (
     end
   end.
 
-(* the compare loops run over the two NUL-terminated views *)
-Fixpoint m_compare (fuel : nat) (a b : list Z) : Z :=
-  match fuel with
-  | O => 0%Z
-  | S f =>
-    let x := hd 0%Z a in let y := hd 0%Z b in
-    if (x =? y)%Z then (if (x =? 0)%Z then 0%Z else m_compare f (tl a) (tl b)) else (x - y)%Z
-  end.
-Fixpoint m_compare_n (n : nat) (a b : list Z) : Z :=
-  match n with
-  | O => 0%Z
-  | S f =>
-    let x := hd 0%Z a in let y := hd 0%Z b in
-    if (x =? 0)%Z || negb (x =? y)%Z then (x - y)%Z else m_compare_n f (tl a) (tl b)
+(* compare(s1, len1, s2, len2), repaired: the loop over min(len1, len2) bytes, then the lengths *)
+Fixpoint m_cmp (a b : list Z) : Z :=
+  match a, b with
+  | x :: a', y :: b' => if (x =? y)%Z then m_cmp a' b' else (x - y)%Z
+  | [], [] => 0%Z
+  | [], _ :: _ => (-1)%Z
+  | _ :: _, [] => 1%Z
   end.
 Definition sgn (z : Z) : Z := if (z <? 0)%Z then (-1)%Z else if (0 <? z)%Z then 1%Z else 0%Z.
 Definition lowt := tbl gen_lowerCaseMap.
@@ -408,6 +417,32 @@ Fixpoint pop_n (w : world) (k : nat) : res world :=
   | O => Ok w
   | S k' => do w1 <- pop_var w; pop_n w1 k'
   end.
+
+(* ---- String::printf, repaired ---- *)
+(* String old( *this) is the temporary pushed at the end: it keeps the old text alive and
+   unchanged while vsnprintf reads the arguments (one of them may point into it).  [fmt w'] = the
+   bytes vsnprintf produces when it runs in world w'; it runs up to three times (into the
+   200-byte buffer, to measure, into the final buffer). *)
+Definition printf_m (w : world) (v : nat) (fmt : world -> res (list Z)) : res (world * out) :=
+  do w0 <- push_copy w v;
+  do w1 <- detach w0 v 0 200;
+  do bk <- v_block w1 v;
+  let cap := bcap (snd bk) in
+  do l <- fmt w1;
+  if length l <? cap then
+    do w2 <- v_write w1 v 0 (map Some l ++ [Some 0%Z]);
+    do w3 <- v_setlen w2 v (length l);
+    do w4 <- pop_var w3;
+    Ok (w4, RInt (Z.of_nat (length l)))
+  else
+    do w2 <- v_write w1 v 0 (map Some (firstn (cap - 1) l) ++ [Some 0%Z]);
+    do l2 <- fmt w2;
+    do w3 <- detach w2 v 0 (length l2);
+    do l3 <- fmt w3;
+    do w4 <- v_write w3 v 0 (map Some l3 ++ [Some 0%Z]);
+    do w5 <- v_setlen w4 v (length l3);
+    do w6 <- pop_var w5;
+    Ok (w6, RInt (Z.of_nat (length l3))).
 
 (* ---- one operation ---- *)
 Definition ret (w : res world) (r : out) : res (world * out) := do x <- w; Ok (x, r).
@@ -471,19 +506,7 @@ Definition exec (w : world) (o : op) : res (world * out) :=
            if n =? length bs then Ok (w, RNone)
            else ret (install w v (slice bs p n) (or3 n)) RNone
     end
-  | OPrintf v l =>
-    do w1 <- detach w v 0 200;
-    do bk <- v_block w1 v;
-    let cap := bcap (snd bk) in
-    let n := length l in
-    if n <? cap then
-      do w2 <- v_write w1 v 0 (map Some l ++ [Some 0%Z]);
-      ret (v_setlen w2 v n) (RInt (Z.of_nat n))
-    else
-      do w2 <- v_write w1 v 0 (map Some (firstn (cap - 1) l) ++ [Some 0%Z]);
-      do w3 <- detach w2 v 0 n;
-      do w4 <- v_write w3 v 0 (map Some l ++ [Some 0%Z]);
-      ret (v_setlen w4 v n) (RInt (Z.of_nat n))
+  | OPrintf v l => printf_m w v (fun _ => Ok l)
   | OJoin v us sep =>
     (* the List<String> holds copies of the arguments while join runs *)
     do w1 <- push_copies w us;
@@ -522,27 +545,20 @@ Definition exec (w : world) (o : op) : res (world * out) :=
     do a <- var_bytes w v; do b <- var_bytes w u;
     Ok (w, RInt (b2z ((length a =? length b) && list_eqb a b)))
   | OCompare v u =>
-    do w1 <- cstr w v; do w2 <- cstr w1 u;
-    do a <- var_bytes w2 v; do b <- var_bytes w2 u;
-    Ok (w2, RInt (sgn (m_compare (S (length a)) (a ++ [0%Z]) (b ++ [0%Z]))))
+    do a <- var_bytes w v; do b <- var_bytes w u;
+    Ok (w, RInt (sgn (m_cmp a b)))
   | OCompareN v u n =>
-    do w1 <- cstr w v; do w2 <- cstr w1 u;
-    do a <- var_bytes w2 v; do b <- var_bytes w2 u;
-    Ok (w2, RInt (sgn (m_compare_n n (a ++ [0%Z]) (b ++ [0%Z]))))
+    do a <- var_bytes w v; do b <- var_bytes w u;
+    Ok (w, RInt (sgn (m_cmp (firstn n a) (firstn n b))))
   | OCompareIC v u =>
-    do w1 <- cstr w v; do w2 <- cstr w1 u;
-    do a <- var_bytes w2 v; do b <- var_bytes w2 u;
-    Ok (w2, RInt (sgn (m_compare (S (length a)) (map lowt a ++ [0%Z]) (map lowt b ++ [0%Z]))))
+    do a <- var_bytes w v; do b <- var_bytes w u;
+    Ok (w, RInt (sgn (m_cmp (map lowt a) (map lowt b))))
   | OCompareICN v u n =>
-    do w1 <- cstr w v; do w2 <- cstr w1 u;
-    do a <- var_bytes w2 v; do b <- var_bytes w2 u;
-    Ok (w2, RInt (sgn (m_compare_n n (map lowt a ++ [0%Z]) (map lowt b ++ [0%Z]))))
+    do a <- var_bytes w v; do b <- var_bytes w u;
+    Ok (w, RInt (sgn (m_cmp (map lowt (firstn n a)) (map lowt (firstn n b)))))
   | OEqualsIC v u =>
-    do a0 <- var_bytes w v; do b0 <- var_bytes w u;
-    if negb (length a0 =? length b0) then Ok (w, RInt 0%Z) else
-    do w1 <- cstr w v; do w2 <- cstr w1 u;
-    do a <- var_bytes w2 v; do b <- var_bytes w2 u;
-    Ok (w2, RInt (b2z (m_compare (S (length a)) (map lowt a ++ [0%Z]) (map lowt b ++ [0%Z]) =? 0)%Z))
+    do a <- var_bytes w v; do b <- var_bytes w u;
+    Ok (w, RInt (b2z ((length a =? length b) && (m_cmp (map lowt a) (map lowt b) =? 0)%Z)))
   | OFindC v c => do a <- var_bytes w v; Ok (w, RInt (m_find_c a c 0))
   | OFindLastC v c => do a <- var_bytes w v; Ok (w, RInt (m_findlast_c a c 0 (-1)%Z))
   | OFindCFrom v c start =>
@@ -575,6 +591,15 @@ Definition exec (w : world) (o : op) : res (world * out) :=
     do a <- var_bytes w v; do b <- var_bytes w u;
     Ok (w, RInt (b2z ((length b <=? length a) && list_eqb (skipn (length a - length b) a) b)))
   | OLen v => do n <- var_len w v; Ok (w, RInt (Z.of_nat n))
+  | OAppendOwn v off len =>
+    do w1 <- cstr w v;                                    (* const char* p = v *)
+    ret (append_own w1 v off len) RNone
+  | OPrintfSelf v a b =>
+    do w1 <- cstr w v;                                    (* const char* p = v *)
+    do h <- get_var w1 v;
+    do n <- d_len w1 h;
+    (* "%s" reads the text p points to: the data v had before the call *)
+    printf_m w1 v (fun w' => do cs <- d_read w' h 0 n; Ok (a ++ map cval cs ++ b))
   end.
 
 (* the value a variable denotes, and the reference state a world denotes *)
